@@ -552,6 +552,27 @@ def subAt : List Nat → Val → Option Val
     | none => none
   | _ :: _, .lit _ => none
 
+/-! ### calling a hoisted clause (`DecisionTree::HoistThen` / `HoistedLeaf`)
+
+`TreeGen::do_build_tree` turns the body of clause N into a function whose parameters are the
+`assigns` of the first leaf that reaches the clause (`params`); every leaf then calls it with the
+sub-values named by its own `row.assigns` (`leaf`).  `Assign` = (variable, occurrence path). -/
+
+abbrev Assign := Nat × List Nat
+
+/-- the repaired leaf (proposed_fixes/C07-hoisted-clause-arg-order.diff): arguments in the order
+of the parameters, looked up by variable name -/
+def reorderArgs (params leaf : List Assign) : List Assign :=
+  params.map (fun p => (leaf.find? (fun a => a.1 == p.1)).getD p)
+
+/-- environment seen by the clause body: parameter names zipped with the argument values -/
+def callEnvFixed (params leaf : List Assign) (root : Val) : List (Nat × Option Val) :=
+  (params.map (·.1)).zip ((reorderArgs params leaf).map (fun a => subAt a.2 root))
+
+/-- the leaf before the fix: `row.assigns` passed positionally -/
+def callEnvUnfixed (params leaf : List Assign) (root : Val) : List (Nat × Option Val) :=
+  (params.map (·.1)).zip (leaf.map (fun a => subAt a.2 root))
+
 /-! ## decision trees with an arbitrary column-selection function -/
 
 /-- what a test node inspects -/
